@@ -15,6 +15,7 @@ import (
 	"testing"
 	"time"
 
+	"github.com/nuetzliches/hookaido/internal/config"
 	"github.com/nuetzliches/hookaido/internal/verifkit/runner"
 )
 
@@ -613,6 +614,11 @@ func allCases(thorough bool) []caseSpec {
 
 const maxReportedKeys = 40
 
+type foundCase struct {
+	idx int
+	msg string
+}
+
 func TestCheck(t *testing.T) {
 	r := runner.Start("C20", "exploration")
 	deadline := r.Deadline(90*time.Second, 10*time.Minute)
@@ -686,6 +692,28 @@ func TestCheck(t *testing.T) {
 	}
 	w0.close()
 
+	// what the content alphabet of the config_apply variants is, judged by the config package of this tree
+	{
+		cls := map[string]string{}
+		for name, f := range contentAlphabet {
+			text := []byte(f(w0))
+			_, perr := config.Parse(text)
+			switch {
+			case perr != nil:
+				cls[name] = "does-not-parse"
+			case !validConfig(text):
+				cls[name] = "parses-but-does-not-compile"
+			default:
+				cls[name] = "valid"
+			}
+		}
+		r.Set("config_content_alphabet", cls)
+		if !validConfig([]byte(w0.baseCfg)) {
+			r.Infra("the fixture's base config does not compile on this tree")
+			r.Finish()
+		}
+	}
+
 	// --- the table
 	cases := allCases(r.Thorough())
 	nw := runtime.NumCPU()
@@ -703,7 +731,8 @@ func TestCheck(t *testing.T) {
 		effectSeen  = map[string]int{}
 		allowedRuns = map[string]int{}
 		relational  []finding
-		reported    = map[string]bool{}
+		found       = map[string]foundCase{} // violation key -> first (lowest index) failing case
+		foundN      = map[string]int{}
 		done        int
 		stopped     bool
 		debug       = os.Getenv("VERIF_C20_DEBUG")
@@ -791,34 +820,15 @@ func TestCheck(t *testing.T) {
 					}
 				}
 				mu.Unlock()
-				for _, f := range cr.Findings {
-					f := f
-					// one report per distinct failure class; the runner keeps 20 replay files, the harness stops
-					// re-checking after maxReportedKeys distinct keys (the rest is only counted)
+				if len(cr.Findings) > 0 {
 					mu.Lock()
-					dup := reported[f.Key]
-					over := !dup && len(reported) >= maxReportedKeys
-					if !dup && !over {
-						reported[f.Key] = true
+					for _, f := range cr.Findings {
+						if prev, ok := found[f.Key]; !ok || idx < prev.idx {
+							found[f.Key] = foundCase{idx: idx, msg: f.Msg}
+						}
+						foundN[f.Key]++
 					}
 					mu.Unlock()
-					if dup {
-						r.Add("violating_cases_same_key", 1)
-						continue
-					}
-					if over {
-						r.Add("violation_keys_not_reported", 1)
-						continue
-					}
-					r.Violation(f.Key, f.Msg, spec, func() bool {
-						again := runCase(w, spec)
-						for _, g := range again.Findings {
-							if g.Key == f.Key {
-								return true
-							}
-						}
-						return false
-					})
 				}
 			}
 		}(w)
@@ -834,6 +844,62 @@ func TestCheck(t *testing.T) {
 	wg.Wait()
 	if stopped {
 		r.NotExhaustive(fmt.Sprintf("wall budget reached after %d of %d cases", done, len(cases)))
+	}
+
+	// --- report: one violation per distinct key, in a scheduling-independent order (round robin over the key
+	// classes gate / list / effect / audit / confine / …), each re-checked on a fresh worker; the harness stops
+	// after maxReportedKeys keys and only counts the rest
+	if len(found) > 0 {
+		groups := map[string][]string{}
+		for k := range found {
+			pre := k
+			if i := strings.IndexByte(k, ':'); i > 0 {
+				pre = k[:i]
+			}
+			groups[pre] = append(groups[pre], k)
+		}
+		var pres []string
+		for p := range groups {
+			sort.Strings(groups[p])
+			pres = append(pres, p)
+		}
+		sort.Strings(pres)
+		var order []string
+		for i := 0; len(order) < len(found); i++ {
+			for _, p := range pres {
+				if i < len(groups[p]) {
+					order = append(order, groups[p][i])
+				}
+			}
+		}
+		rw, err := newWorker(fx, 98)
+		if err != nil {
+			r.Infra("worker: %v", err)
+		} else {
+			for n, k := range order {
+				if n >= maxReportedKeys {
+					break
+				}
+				k, fc := k, found[k]
+				spec := cases[fc.idx]
+				r.Violation(k, fmt.Sprintf("%s [%d failing cases with this key; first: %s]", fc.msg, foundN[k], spec.key()), spec, func() bool {
+					again := runCase(rw, spec)
+					for _, g := range again.Findings {
+						if g.Key == k {
+							return true
+						}
+					}
+					return false
+				})
+			}
+			rw.close()
+		}
+		r.Set("violation_keys_found", len(found))
+		total := 0
+		for _, n := range foundN {
+			total += n
+		}
+		r.Set("violating_findings_total", total)
 	}
 
 	// --- relational audit checks over the whole run
